@@ -56,6 +56,24 @@ pub fn simple_world(rng: &mut Rng, reg: &Reg, pool: &[&Entry], n: usize, custom_
     WorldPlan { custom_chain, twin: false, accounts, codes, codes1: vec![], setup }
 }
 
+/// an `Option` argument that is `None` may simply be left out of the document
+pub fn drop_null_members(doc: &Value, rng: &mut Rng) -> Value {
+    let mut d = doc.clone();
+    if let Some(o) = d.as_object_mut() {
+        if o.len() == 1 {
+            if let Some(body) = o.values_mut().next().and_then(|b| b.as_object_mut()) {
+                let nulls: Vec<String> = body.iter().filter(|(_, v)| v.is_null()).map(|(k, _)| k.clone()).collect();
+                for k in nulls {
+                    if rng.chance(1, 2) {
+                        body.remove(&k);
+                    }
+                }
+            }
+        }
+    }
+    d
+}
+
 pub struct TrafficGen<'a> {
     pub sg: ScriptGen<'a>,
     pub codes: &'a [Code],
@@ -102,7 +120,7 @@ impl<'a> TrafficGen<'a> {
                 Some(Op::Exec {
                     target: c.addr.clone(),
                     sender: rng.pick(accounts).clone(),
-                    msg: Doc::json(&doc_for(h, &args)),
+                    msg: Doc::json(&drop_null_members(&doc_for(h, &args), rng)),
                     funds,
                     intent: Some(Intent { hid: h.id(), args: Value::Object(args), cid: c.cid.clone() }),
                 })
@@ -116,7 +134,7 @@ impl<'a> TrafficGen<'a> {
                 let args = self.sg.args_for(rng, &c.cid, h, 0);
                 Some(Op::Query {
                     target: c.addr.clone(),
-                    msg: Doc::json(&doc_for(h, &args)),
+                    msg: Doc::json(&drop_null_members(&doc_for(h, &args), rng)),
                     intent: Some(Intent { hid: h.id(), args: Value::Object(args), cid: c.cid.clone() }),
                 })
             }
@@ -129,7 +147,7 @@ impl<'a> TrafficGen<'a> {
                 let args = self.sg.args_for(rng, &c.cid, h, 0);
                 Some(Op::Sudo {
                     target: c.addr.clone(),
-                    msg: Doc::json(&doc_for(h, &args)),
+                    msg: Doc::json(&drop_null_members(&doc_for(h, &args), rng)),
                     intent: Some(Intent { hid: h.id(), args: Value::Object(args), cid: c.cid.clone() }),
                 })
             }
